@@ -41,9 +41,12 @@ def sources(body):
             out.append(l)
     return out
 
+import props.anchors as anchors
+
 
 def run(ctx, chk):
     O, P = ctx.O, ctx.P
+    anchors.check(ctx, chk, ['header_write', 'update_computed', 'reset_base'])
     comp = {bid: b for bid, b in P.bodies.items() if is_compute(bid) and b.kind != "closure"}
     if len(comp) < 70:
         raise AnchorMissing("expected >= 70 compute_* methods of EagerVec, found %d" % len(comp))
